@@ -327,13 +327,38 @@ def run_case(res, rec, case, spec, opt, params0, lattice):
         res.transitions += 1
         return None
     res.transitions += 2  # transformation + build
+    t_init = np.asarray(model.vars["x_transformed"].value) if "x_transformed" in model.vars else None
     try:
-        return _after_build(res, rec, case, spec, opt, params0, lattice, model, dist_vars, bij_vars, sigbase)
+        walk = _after_build(res, rec, case, spec, opt, params0, lattice, model, dist_vars, bij_vars, sigbase)
     except Exception as e:  # noqa: BLE001
         if not core.raised_in_repo(e, transparent=("_after_build", "check_state", "run_case")):
             raise
         rec.fail("raises", f"{sigbase}:raises-{type(e).__name__}", case, f"{sigbase}: liesel raised {type(e).__name__} while the transformed model was used (assignment / value / log_prob): {str(e)[:300]}")
         return None
+    if walk is None:
+        return None
+    # a second pass through the API: the model is taken apart and built again from the same objects
+    # (the transformation was requested once; the rebuilt model must be the same transformed model)
+    import liesel.model as lsl
+
+    sig2 = sigbase + "/rebuilt"
+    try:
+        for k in dist_vars:
+            if f"p_{k}" in model.vars:
+                model.vars[f"p_{k}"].value = jnp.float32(params0[k])
+        for k in bij_vars:
+            if f"b_{k}" in model.vars:
+                model.vars[f"b_{k}"].value = jnp.float32(bkw[k])
+        model.vars["x_transformed"].value = jnp.asarray(t_init)
+        _, vars_ = model.pop_nodes_and_vars()
+        model2 = lsl.GraphBuilder().add(*vars_.values()).build_model()
+        res.transitions += 2
+        _after_build(res, rec, case, spec, opt, params0, lattice[:2], model2, dist_vars, bij_vars, sig2)
+    except Exception as e:  # noqa: BLE001
+        if not core.raised_in_repo(e, transparent=("_after_build", "check_state", "run_case")):
+            raise
+        rec.fail("raises", f"{sig2}:raises-{type(e).__name__}", case, f"{sig2}: pop_nodes_and_vars() + building the model again from the same variables (or using it) raised {type(e).__name__}: {str(e)[:300]}")
+    return walk
 
 
 def _after_build(res, rec, case, spec, opt, params0, lattice, model, dist_vars, bij_vars, sigbase):
